@@ -371,6 +371,13 @@ def execute(case):
       (text,), _m = tr.flatten(x)
       obs['codec'].append((x, [ord(ch) for ch in text]))
   obs['roundtrip'] = scanon(back) == before
+  # unset stays unset: the NO_VALUE sentinel is compared by identity everywhere in Fiddle
+  try:
+    from fiddle._src import config as config_lib
+    obs['no_value_singleton'] = all(x is fdl.NO_VALUE for x, _ in daglish.iterate(back, memoized=False)
+                                    if isinstance(x, config_lib.NoValue))
+  except Exception as e:
+    obs['no_value_singleton'] = f'raised {type(e).__name__}'
   if not obs['roundtrip']:
     obs['before'] = before
     obs['after'] = scanon(back)
@@ -395,6 +402,26 @@ def execute(case):
         collect(y)
   collect(json.loads(doc))
   obs['policy_consulted'] = syms <= set(policy.import_calls)
+  # the same value through the flag-value serializer (zlib + base64 around the same document):
+  # the supplied policy must be the one consulted there too, also when it denies
+  try:
+    from fiddle._src.absl_flags import utils as flag_utils
+    zs = flag_utils.ZlibJSONSerializer()
+    text = zs.serialize(v)
+    p2 = RecordingPolicy()
+    back2 = zs.deserialize(text, pyref_policy=p2)
+    ok = syms <= set(p2.import_calls) and scanon(back2) == before
+    if syms:
+      deny = sorted(syms)[0]
+      p3 = RecordingPolicy(deny=[deny])
+      try:
+        zs.deserialize(text, pyref_policy=p3)
+        ok = False                      # a denied symbol was resolved
+      except serialization.PyrefPolicyError:
+        pass
+    obs['flag_serializer_policy'] = ok
+  except Exception as e:
+    obs['flag_serializer_policy'] = f'raised {type(e).__name__}: {e}'[:160]
   # model correspondence: the document's `objects` table, read by an independent reader, against
   # Model/Rebuild.lean's table for the same configuration (and against loading that table again)
   from harness import codeparse, docread
@@ -501,6 +528,12 @@ def oracle(case, real):
     return {'what': 'deserialization invoked a configured callable'}
   if not real['policy_consulted']:
     return {'what': 'a symbol was resolved without consulting the policy'}
+  if real.get('no_value_singleton', True) is not True:
+    return {'what': 'a NO_VALUE in the input came back as another object: the parameter is no longer unset',
+            'observed': real['no_value_singleton']}
+  if real.get('flag_serializer_policy', True) is not True:
+    return {'what': 'the flag-value serializer did not put every symbol to the supplied policy (or changed the value)',
+            'observed': real['flag_serializer_policy']}
   if not real['input_unchanged']:
     return {'what': 'dump_json / load_json modified the input'}
   return deferred
